@@ -76,6 +76,7 @@ static const family fams[2] = {
 // ------------------------------------------------------------ pipe counters
 typedef struct {
 	_Atomic int n;
+	_Atomic int adds, rems;
 } pcount;
 #define PC_POOL 8192
 static pcount pc_pool[PC_POOL];
@@ -89,6 +90,8 @@ pc_get(void)
 	}
 	pcount *p = &pc_pool[pc_next++];
 	atomic_store(&p->n, 0);
+	atomic_store(&p->adds, 0);
+	atomic_store(&p->rems, 0);
 	return p;
 }
 
@@ -99,8 +102,10 @@ pipe_cb(nng_pipe p, nng_pipe_ev ev, void *arg)
 	(void) p;
 	if (ev == NNG_PIPE_EV_ADD_POST) {
 		atomic_fetch_add(&pc->n, 1);
+		atomic_fetch_add(&pc->adds, 1);
 	} else if (ev == NNG_PIPE_EV_REM_POST) {
 		atomic_fetch_sub(&pc->n, 1);
+		atomic_fetch_add(&pc->rems, 1);
 	}
 }
 
@@ -113,7 +118,7 @@ pc_wait(pcount *pc, int n, const char *what)
 		}
 		vf_msleep(1);
 	}
-	vf_harness_fail("%s: %d of %d pipes after 10 s", what, atomic_load(&pc->n), n);
+	vf_harness_fail("%s: %d of %d pipes after 10 s (%d added, %d removed)", what, atomic_load(&pc->n), n, atomic_load(&pc->adds), atomic_load(&pc->rems));
 }
 
 static int cases_since_init;
@@ -869,8 +874,11 @@ chain_case(long idx)
 		sk_dial(q->s, durl[1]);
 	}
 	for (int j = 1; j <= c->k; j++) {
-		pc_wait(c->h[j].pc_front, j == 1 ? c->nreq : 1, "forwarder front");
-		pc_wait(c->h[j].pc_back, 1, "forwarder back");
+		char what[64];
+		snprintf(what, sizeof(what), "forwarder %d front (%s)", j, vf_tran_names[c->h[j].tran]);
+		pc_wait(c->h[j].pc_front, j == 1 ? c->nreq : 1, what);
+		snprintf(what, sizeof(what), "forwarder %d back (next link %s)", j, vf_tran_names[j < c->k ? c->h[j + 1].tran : c->tran_rep]);
+		pc_wait(c->h[j].pc_back, 1, what);
 	}
 	pc_wait(c->pc_rep, c->k == 0 ? c->nreq : 1, "replier");
 	for (int i = 0; i < c->nreq; i++) {
